@@ -126,6 +126,9 @@ def store(pid, m):
     readme = open(dst + "/README.md").read() if os.path.exists(dst + "/README.md") else ""
     meta_f = dst + "/meta.json"
     meta = json.load(open(meta_f)) if os.path.exists(meta_f) else {}
+    # keep what the checks said the first time (before any strengthening prompted by this change)
+    if "checks_run" in meta and "first_round" not in meta:
+        meta["first_round"] = {"own_check": meta["checks_run"].get(pid), "caught_by": meta.get("caught_by")}
     summ = json.load(open("/verif/seeded/summaries.json")).get(key, {})
     meta.update(summ)
     caught = sorted(c for c, r in d.get("checks", {}).items() if r["exit"] == 1 and r["violation"])
@@ -158,14 +161,21 @@ def readme():
             else:
                 how = "check broke (exit %s)" % r["exit"]
         others = [c for c in m["caught_by"] if c != own]
-        rows.append("| %s | %s | %s | %s | %s | %s |" % (m["id"], own, m.get("summary", "").replace("|", "/"),
-                    m.get("needs_to_manifest", "").replace("|", "/"), how, " ".join(others) or "–"))
+        def verdict(r):
+            if not r:
+                return "not run"
+            if r["exit"] == 1 and r["violation"]:
+                return "VIOLATION" + (" (no-failing-input-found)" if r["no_failing_input"] else " with failing input")
+            return "MISSED" if r["exit"] == 0 else "check broke (exit %s)" % r["exit"]
+        first = verdict(m["first_round"]["own_check"]) if "first_round" in m else how
+        rows.append("| %s | %s | %s | %s | %s | %s | %s |" % (m["id"], own, m.get("summary", "").replace("|", "/"),
+                    m.get("needs_to_manifest", "").replace("|", "/"), first, how, " ".join(others) or "–"))
     txt = ["# Seeded changes", "",
            "Each directory holds one change to cobalt-org/liquid-rust that compiles, passes the unedited test suite and breaks",
            "one property (`patch.diff`, `demo.rs` = a test that fails with the change and passes without, the author's `README.md`,",
            "and `meta.json` = what was confirmed, what was run, what each check reported). None is ever committed to /repo.",
            "Regenerate this table with `python3 tools/seed_eval.py readme`.", "",
-           "| id | property | change | needs | own check | also flagged by |", "|---|---|---|---|---|---|"] + rows
+           "| id | property | change | needs | own check, first run | own check, now | also flagged by (now) |", "|---|---|---|---|---|---|---|"] + rows
     open("/verif/seeded/README.md", "w").write("\n".join(txt) + "\n")
     print("\n".join(txt))
 
